@@ -23,7 +23,7 @@ Conform == /\ l <= Len(Rec)
            /\ l' = l + 1 /\ nrej' = nrej
 Reject  == /\ l <= Len(Rec)
            /\ ~Accept(Rec[l], Prop)
-           /\ PrintT(<<"REJECT", l, "">>)
+           /\ PrintT(<<"REJECT", l, Deviation(Rec[l], Prop)>>)
            /\ l' = l + 1 /\ nrej' = nrej + 1
 Next == Conform \/ Reject
 
